@@ -70,12 +70,28 @@ def generate(rng, tier):
         if rep < 2 or tier != "quick" and rep % 8 < 2:
             # the full cross product of the small special values (the shortcuts of the translation are conjunctions
             # of exactly such values: every combination occurs, not only the standard ones)
-            small = [("u",), ("s",), ("o", -8), ("o", -16), ("o", -24)]
+            small = [("u",), ("s",), ("o", -8), ("o", -16), ("o", -24), ("o", -12)]
             for reg in (R["sp"], R["fp"]):
                 for off in (0, 8, 16, 24, 32):
                     for fpr in small:
                         for rar in small:
                             rows.append(dict(cfa=("r", reg, off), fp=fpr, ra=rar))
+        if rep < 4 or tier != "quick" and rep % 8 >= 6:
+            # slots and frame sizes around the limits of the compressed rules (u16 / i16 counts of 8 or 16 bytes)
+            gran = 8 if arch == "x86" else 16
+            for reg in (R["sp"], R["fp"]):
+                for off in (0x3fff8 if arch == "x86" else 0x3fff0, 0x40000, 0x40000 + gran, 0x50000, 0x80000 - gran, 0x80000, 0x100000 - gran, 0x100000):
+                    for fpr in (("s",), ("o", -16), ("o", -off), ("o", 8 - off) if arch == "x86" else ("o", 16 - off)):
+                        for rar in (("o", -8), ("s",), ("o", 8 - off)):
+                            rows.append(dict(cfa=("r", reg, off), fp=fpr, ra=rar))
+            # expressions that do not produce an address (every way framehop's evaluation gives up), in every position
+            zoo = [[], [("bad",)], [("plus",)], [("drop",)], [("reg0",)], [("breg", R["sp"], 8), ("stackvalue",)], [("deref",)],
+                   [("breg", R["sp"], 16), ("deref",)], [("breg", 40, 0)], [("lit", 3), ("lit", 4)], [("breg", R["sp"], 32)]]
+            for ops in zoo:
+                rows.append(dict(cfa=("e", ops), fp=("s",), ra=("o", -8)))
+                rows.append(dict(cfa=("r", R["sp"], 32), fp=("e", ops), ra=("o", -8)))
+                rows.append(dict(cfa=("r", R["sp"], 32), fp=("s",), ra=("e", ops)))
+                rows.append(dict(cfa=("r", R["sp"], 32), fp=("ve", ops), ra=("ve", ops)))
         pres = ["hdr", "eh", "debug"][rep % 3]
         fdes = [dict(start=0x1000 + 0x10 * i, len=0x10, rows=[(0, r)]) for i, r in enumerate(rows)]
         s.module_dwarf("M", 0x100000, 0x100000 + 0x1000 + 0x10 * len(rows) + 0x100, 0x100000, 0, pres, fdes, rng, shuffle=True)
@@ -94,10 +110,11 @@ def generate(rng, tier):
                 a = 0x100000 + 0x1000 + 0x10 * i + rng.choice([0, 1, 0xf])
                 kind = "ip" if first else "ra"
                 addr = a if first else a + 1
-                cfa_v = (sp if r["cfa"][1] == R["sp"] else fp) + r["cfa"][2]
-                for rule in (r["fp"], r["ra"]):
-                    if rule[0] == "o":
-                        want(cfa_v + rule[1])
+                if r["cfa"][0] == "r":
+                    cfa_v = (sp if r["cfa"][1] == R["sp"] else fp) + r["cfa"][2]
+                    for rule in (r["fp"], r["ra"]):
+                        if rule[0] == "o":
+                            want(cfa_v + rule[1])
                 if arch == "x86":
                     rav = a
                     regs = s.regs_x86(a, sp, fp)
@@ -107,7 +124,7 @@ def generate(rng, tier):
                 s.add("newcache F")
                 ln = s.add("unwind U F %s %s %s S" % (kind, hx(addr), regs))
                 s.meta[ln] = {"row": i, "rowdef": r, "first": first, "sp": sp, "fp": fp, "rav": rav, "arch": arch}
-                s.tags[ln] = "%s:%s:%s:%s:%d" % (arch, "sp" if r["cfa"][1] == R["sp"] else "fp", r["ra"][0], r["fp"][0], first)
+                s.tags[ln] = "%s:%s:%s:%s:%d" % (arch, "expr" if r["cfa"][0] != "r" else ("sp" if r["cfa"][1] == R["sp"] else "fp"), r["ra"][0], r["fp"][0], first)
         items = sorted(memd.items())
         s.lines[mem_line - 1] = "mem S %d %s" % (len(items), " ".join("%s %s" % (hx(a), hx(v)) for a, v in items))
         out.append(("rows-%s-%d" % (arch, rep), s))
